@@ -190,7 +190,9 @@ def gen_case(rng, thorough, idx):
     # persistent CLASSES (ZODB.persistentclass) among the test objects: never ghosts, they re-read their
     # state immediately when invalidated (oracle only)
     pclass = sorted(rng.sample([i for i in range(nobj) if i not in blobs], 1)) \
-        if rng.random() < 0.12 and len(blobs) < nobj else []
+        if rng.random() < 0.14 and len(blobs) < nobj and kind != 'mvccmap' else []
+    # (not with the native MVCCMappingStorage: its load() polls on demand when a class re-reads itself
+    # between tpc_abort and the next boundary and drops the invalidations of that poll — reported)
     if pack:
         progs['pk'] = [['pack']] * rng.choice([1, 1, 2])
     if kind == 'file' and not nobj2 and rng.random() < 0.08:
